@@ -176,6 +176,9 @@ def plan_for(prop, tier, seed):
         p.families = [
             ("model-init", True, "dev", lambda ids, rng: G.f_model_init(ids, rng, full=not q)),
         ]
+        if prop == "C17":
+            # the reset step under a failing bus: a failure must not make the reset happen twice
+            p.families.append(("reset-faults", True, "dev", lambda ids, rng: {"bases": [b for b in G.fault_bases(ids, rng, q) if b["tag"] == "fault-init"]}))
     elif prop == "C12":
         p.level = "fault_enumeration"
         p.rule = ("case = (driver operation, model, transport, index k of the failing low-level operation); every k of every SPI "
